@@ -177,3 +177,42 @@ def calls_on(events: Sequence[Event], receiver: str, method: str) -> List[ast.Ca
             if isinstance(n, ast.Call) and isinstance(n.func, ast.Attribute) and n.func.attr == method and norm(n.func.value) == receiver:
                 res.append(n)
     return res
+
+
+def unroll_literal_loops(block: Sequence[ast.stmt]) -> List[ast.stmt]:
+    """`for x in (a, b): body` with a literal tuple/list, a plain name target and no break/continue/else becomes
+    body[x:=a]; body[x:=b].  Everything else is kept (recursively inside if/else)."""
+    import copy
+
+    out: List[ast.stmt] = []
+    for st in block:
+        if (
+            isinstance(st, ast.For)
+            and isinstance(st.iter, (ast.Tuple, ast.List))
+            and isinstance(st.target, ast.Name)
+            and not st.orelse
+            and len(st.iter.elts) <= 4
+            and not any(isinstance(n, (ast.Break, ast.Continue)) for n in ast.walk(st))
+            and not any(isinstance(n, ast.Name) and n.id == st.target.id and isinstance(n.ctx, ast.Store) for b in st.body for n in ast.walk(b))
+        ):
+            for e in st.iter.elts:
+
+                class _S(ast.NodeTransformer):
+                    def visit_Name(self, n):
+                        if n.id == st.target.id and isinstance(n.ctx, ast.Load):
+                            return copy.deepcopy(e)
+                        return n
+
+                for b in st.body:
+                    nb = _S().visit(copy.deepcopy(b))
+                    ast.copy_location(nb, b)
+                    out.append(ast.fix_missing_locations(nb))
+            continue
+        if isinstance(st, ast.If):
+            new = copy.copy(st)
+            new.body = unroll_literal_loops(st.body)
+            new.orelse = unroll_literal_loops(st.orelse)
+            out.append(new)
+            continue
+        out.append(st)
+    return out
